@@ -1,10 +1,16 @@
 """C14 — cross-thread entry points have no unsynchronised conflicting accesses.
 
 Static lockset + confinement analysis: schedule-independent by construction.
+
+Every rule is evaluated in calling contexts (entry points with their helpers inlined) and speaks about
+*state* (records/fields, file-scope variables), *exported functions* and *roles* (installed signal handler,
+atfork handlers, thread bodies, handler installed into a particular object, tls init hooks, constructors,
+poll-method slots, the child side of a fork()).  No rule names a static function: see h14.py.
 """
-from ..core import (names_of, same_value, AnalysisBroken, Inliner, canon, strip, strip_load, last_member, must_pass, relpath,
-                    norm_cond, walk, forward, lvalue_steps, lvalue_root, evloc)
-from ..analyses import (is_call, locksets, held, SIGBLOCK, lock_effect, callback_kind, path_to, describe)
+from ..core import (AnalysisBroken, Inliner, canon, strip, strip_load, last_member, forward, lvalue_steps, lvalue_root,
+                    is_null)
+from ..analyses import (held, SIGBLOCK, callback_kind, describe)
+from . import h14 as h
 
 EVL = 'iv_state.event_list_mutex'
 POOL = 'work_pool_priv.lock'
@@ -38,39 +44,18 @@ CLASSIFIED_UNSHARED = {
                          'idle_timer': 'touched only by the worker thread itself'},
 }
 
-# (function, location) -> reason; `via`: only in contexts whose root/chain contains that function
-EXEMPT = [
-    dict(fn='iv_event_register', loc=('iv_event', 'list'), why='initialisation before the event is published (no poster can hold it yet)'),
-    dict(fn='iv_event_unregister', loc=('iv_event', 'list'), why='emptiness read: posters must be quiescent when an event is unregistered (documented); owner-side mutation happens in this thread'),
-    dict(fn='iv_event_init', loc=('iv_state', 'events_pending'), why='state block not yet published'),
-    dict(fn='iv_work_pool_create', loc='work_pool_priv.*', why='pool not yet published (this->priv is stored last)'),
-    dict(fn='iv_work_thread', loc='work_pool_thread.*', why='thread record reachable by others only through the idle list, linked later under the lock'),
-    dict(fn='iv_work_event', loc=('work_pool_priv', 'shutting_down'), why='written only by the owner thread; this is the owner thread reading it'),
-    dict(fn='__iv_wait_interest_register', loc='iv_wait_interest.*', why='initialisation before the tree insertion publishes the interest'),
-    dict(fn='__iv_wait_interest_unregister', loc=('iv_wait_interest', 'events_pending'), why='after removal from the tree under the lock the reaper cannot reach the interest'),
-    dict(fn='iv_wait_completion', loc=('iv_wait_interest', 'events_pending'), why=None),   # must be locked: no exemption (placeholder removed below)
-    dict(fn='iv_signal_handler', loc=('global', 'sig_owner_pid'), why='stored before the first handler can be installed; later stores only after fork in the child'),
-    dict(fn='iv_signal_init', loc=('global', 'process_sigs'), why='constructor: runs before any thread exists'),
-    dict(fn='iv_signal_tls_init_thread', loc=('iv_signal_thr_info', 'thr_sigs'), why='per-thread area initialised before the thread can register interests'),
-    dict(fn='iv_signal_child_reset_postfork', loc='*', via='iv_wait_interest_register_spawn', why='post-fork child is single-threaded'),
-    dict(fn='iv_signal_register', loc=('iv_signal', 'active'), why=None),
-    dict(fn='iv_signal_compare', loc='*', why='pure comparator: reads immutable keys (signum, flags, address) of nodes; runs under whatever lock its tree operation holds'),
-    dict(fn='iv_wait_interest_compare', loc='*', why='pure comparator over immutable pid'),
-]
-EXEMPT = [x for x in EXEMPT if x['why']]
-
-ONE_WAY = {   # flag -> (functions that may store it, allowed value kinds, why)
-    'epoll_support': (['epollfd_grab'], 'int', 'feature detection: demoted on ENOSYS'),
-    'epoll_pwait2_support': (['iv_fd_epoll_wait'], 'int', 'feature detection'),
-    'eventfd_in_use': (['eventfd_grab'], 'int', 'feature detection'),
-    'pipe2_support': (['grab_pipe'], 'int', 'feature detection'),
-    'splice_available': (['check_splice_available'], 'int', 'feature probe'),
-    'clock_source': (['iv_time_get'], 'int', 'feature detection'),
-    'iv_event_use_event_raw': (['iv_event_register'], 'int', 'transport selection, one-way 0 -> 1'),
-    'method': (['consider_poll_method', 'iv_fd_epoll_timerfd_set_poll_timeout', 'iv_fd_poll_ppoll'], 'table',
-               'selected during the first iv_init; later only compatible fallbacks (C15)'),
-    'inited': (['iv_tls_thread_init'], 'int', 'one-way 0 -> 1'),
-    'iv_state_key_allocated': (['iv_init'], 'int', 'first iv_init is documented to complete before other threads call it'),
+# file-scope one-way flags: name -> (value kind, why).  What makes a flag one-way is checked, not who writes it.
+ONE_WAY = {
+    'epoll_support': ('int', 'feature detection: demoted on ENOSYS'),
+    'epoll_pwait2_support': ('int', 'feature detection'),
+    'eventfd_in_use': ('int', 'feature detection'),
+    'pipe2_support': ('int', 'feature detection'),
+    'splice_available': ('int', 'feature probe'),
+    'clock_source': ('int', 'feature detection'),
+    'iv_event_use_event_raw': ('int', 'transport selection, one-way 0 -> 1'),
+    'method': ('table', 'selected during the first iv_init; later only compatible fallbacks (C15)'),
+    'inited': ('int', 'one-way 0 -> 1'),
+    'iv_state_key_allocated': ('int', 'first iv_init is documented to complete before other threads call it'),
 }
 GLOBAL_OTHER = {   # globals that are neither lock-protected nor one-way flags, with the reason they are safe / out of scope
     'fatal_msg_handler': 'set-up call, documented as not thread-safe configuration',
@@ -90,6 +75,11 @@ SIGNAL_SAFE_EXTERNAL = {'getpid', 'write', 'read', 'pthread_getspecific', 'pthre
 FOREIGN_ALLOWED = {'event_list_mutex': 'the owner\'s list lock', 'events_pending': 'accessed under that lock',
                    'events_kick': 'read of the kick descriptor', 'u': 'read of the epoll descriptor'}
 
+# calls that only read / only (re)initialise the object whose address they are given
+READ_CALLS = {'iv_list_empty', 'iv_avl_tree_empty', 'iv_avl_tree_min', 'iv_avl_tree_max', 'iv_avl_tree_next', 'iv_avl_tree_prev'}
+INIT_CALLS = {'INIT_IV_LIST_HEAD'}
+ANY = frozenset(['read', 'overwrite', 'rmw'])
+
 
 def roots_of(prog):
     called = set()
@@ -104,7 +94,9 @@ def roots_of(prog):
 
 
 def shared_accesses(e):
-    """[(location key)] shared locations touched by the event itself."""
+    """[(location key)] shared locations touched by the event itself.  A node that copy propagation put in the
+    place of a read of a caching local (`_was`) is a read of that local, not of memory: the memory was read
+    where the local was assigned, and that load is an event of its own."""
     exprs = []
     if e['ev'] == 'load':
         exprs.append(e['e'])
@@ -120,6 +112,8 @@ def shared_accesses(e):
         y = x
         # walk the access path itself
         while isinstance(y, dict):
+            if y.get('_was'):
+                break
             k = y.get('k')
             if k == 'member':
                 key = (y.get('record'), y['field'])
@@ -141,31 +135,225 @@ def shared_accesses(e):
     return out
 
 
-def exempt_for(fn_name, key, root, chain):
-    for x in EXEMPT:
-        if x['fn'] != fn_name:
+def access_kind(e):
+    """read / overwrite (the old value is not used) / rmw (everything else, incl. list and tree mutation)."""
+    if e['ev'] == 'load':
+        return 'read'
+    if e['ev'] == 'store':
+        return 'overwrite' if e.get('op') == '=' else 'rmw'
+    if e.get('callee') in READ_CALLS:
+        return 'read'
+    if e.get('callee') in INIT_CALLS:
+        return 'overwrite'
+    return 'rmw'
+
+
+def _addr_member_arg(e, key, callees=None, argi=None):
+    """call event passing the address of a `key` member (record, field)"""
+    if e['ev'] != 'call' or (callees is not None and e.get('callee') not in callees):
+        return False
+    args = e.get('args', [])
+    for i, a in enumerate(args):
+        if argi is not None and i != argi:
             continue
-        loc = x['loc']
-        if loc != '*' and loc != key and not (isinstance(loc, str) and loc.endswith('.*') and key[0] == loc[:-2]):
+        a2 = strip(a)
+        if isinstance(a2, dict) and a2.get('k') == 'addr' and last_member(a2['e']) == key:
+            return True
+    return False
+
+
+def _publishes_pool(e):
+    return e['ev'] == 'store' and last_member(e['lhs']) == ('iv_work_pool', 'priv') and 'rhs' in e and not is_null(e['rhs'])
+
+
+def _publishes_interest(e):
+    return _addr_member_arg(e, ('iv_wait_interest', 'avl_node'), ('iv_avl_tree_insert',))
+
+
+def _links_thread(e):
+    return _addr_member_arg(e, ('work_pool_thread', 'list'), ('iv_list_add', 'iv_list_add_tail'), 0)
+
+
+def exemptions(prog):
+    """Unlocked accesses that are nevertheless race-free, each with the role of the code that may make them
+    (`within`: the innermost stable frame of the access; `root`: the entry point), the kind of access, an optional
+    condition on the path (`unless_after`: must not follow that event; `after_release`: every path released that lock before)
+    and the reason.  Roles are resolved against the program: API names, or what the function is used for."""
+    def A(*names):
+        return {f.q for f in h.api(prog, *names)}
+
+    def R(fs, what):
+        fs = [f for f in fs if f is not None]
+        if not fs:
+            raise AnalysisBroken('no function in the role "%s"' % what)
+        return {f.q for f in fs}
+    return [
+        dict(within=A('iv_event_register'), loc=('iv_event', 'list'), kinds={'overwrite'},
+             why='initialisation before the event is published (no poster can hold it yet)'),
+        dict(within=A('iv_event_unregister'), loc=('iv_event', 'list'), kinds={'read'},
+             why='emptiness read: posters must be quiescent when an event is unregistered (documented); owner-side mutation happens in this thread'),
+        dict(within=A('iv_event_init'), loc=('iv_state', 'events_pending'), kinds={'overwrite'}, why='state block not yet published'),
+        dict(within=A('iv_work_pool_create'), loc='work_pool_priv.*', kinds={'overwrite'}, unless_after=('pool published', _publishes_pool),
+             why='pool not yet published (this->priv is stored last)'),
+        dict(within=R(h.thread_bodies(prog), 'thread body'), loc='work_pool_thread.*', kinds={'overwrite'},
+             unless_after=('thread record linked', _links_thread),
+             why='thread record reachable by others only through the idle list, linked later under the lock'),
+        dict(within=R(h.installed_at(prog, [('iv_event', 'handler'), ('work_pool_priv', 'ev')]), 'handler of the pool\'s completion event'),
+             loc=('work_pool_priv', 'shutting_down'), kinds={'read'}, owner_only=A('iv_work_pool_create', 'iv_work_pool_put'),
+             why='written only by the owner thread; this is the owner thread reading it'),
+        dict(within=A('iv_wait_interest_register', 'iv_wait_interest_register_spawn'), loc='iv_wait_interest.*', kinds={'overwrite'},
+             unless_after=('interest inserted into the tree', _publishes_interest),
+             why='initialisation before the tree insertion publishes the interest'),
+        dict(within=A('iv_wait_interest_unregister', 'iv_wait_interest_register_spawn'), loc=('iv_wait_interest', 'events_pending'), kinds=ANY,
+             after_release=WAIT,
+             why='after removal from the tree under the lock the reaper cannot reach the interest'),
+        dict(within=R([x[0] for x in h.signal_installs(prog)], 'process signal handler'), loc=('global', 'sig_owner_pid'), kinds={'read'},
+             why='stored before the first handler can be installed; later stores only after fork in the child'),
+        dict(root=R(h.constructors(prog), 'constructor'), loc='*', kinds=ANY, why='constructor: runs before any thread exists'),
+        dict(within=R(h.initialiser_hooks(prog, 'iv_tls_user', 'init_thread'), 'tls init_thread hook'),
+             loc=('iv_signal_thr_info', 'thr_sigs'), kinds={'overwrite'},
+             why='per-thread area initialised before the thread can register interests'),
+        dict(fork_child=True, loc='*', kinds=ANY, why='post-fork child is single-threaded'),
+    ]
+
+
+def _loc_matches(loc, key):
+    return loc == '*' or loc == key or (isinstance(loc, str) and loc.endswith('.*') and key[0] == loc[:-2])
+
+
+class Context:
+    """One entry point with everything it calls inlined, its locksets and lazily computed path predicates."""
+
+    def __init__(self, prog, root):
+        self.root = root
+        self.g = Inliner(prog, expand_methods=True).inline(root)
+        self.entry = frozenset()
+        self.eff = h.lock_effect_in(self.g)      # lock_effect with lock pointers held in locals resolved
+        self._ls = None
+        self._memo = {}
+        self._child = None
+
+    @property
+    def ls(self):
+        if self._ls is None:
+            self._ls = h.locksets_in(self.g, entry=self.entry, eff=self.eff)
+        return self._ls
+
+    def child(self, b, i):
+        if self._child is None:
+            self._child = h.fork_child(self.g) if h.has_fork(self.g) else {}
+        return bool(self._child.get((b, i)))
+
+    def may_follow(self, name, pred, b, i):
+        k = ('may', name)
+        if k not in self._memo:
+            self._memo[k] = h.may_follow(self.g, pred)
+        return bool(self._memo[k].get((b, i)))
+
+    def must_follow(self, name, pred, b, i):
+        k = ('must', name)
+        if k not in self._memo:
+            self._memo[k] = h.must_follow(self.g, pred)
+        return bool(self._memo[k].get((b, i)))
+
+    def points(self):
+        for b, blk in self.g.blocks.items():
+            for i, e in enumerate(blk.events):
+                S = self.ls.get((b, i))
+                if S is not None:
+                    yield b, i, e, held(S)
+
+
+def signal_mask_full(prog, graphs, store):
+    """The sigaction object that `store` puts a handler into has its sa_mask filled (all signals blocked while the
+    handler runs) on every path to the sigaction() call that installs it, in every entry point that contains the store."""
+    res = [_mask_full_in(g, store) for g in graphs]
+    res = [r for r in res if r is not None]
+    return bool(res) and all(res)
+
+
+def _mask_full_in(g, store):
+    ok_all = True
+    found = False
+    for e in g.events():
+        if not (e['ev'] == 'store' and e.get('loc') == store.get('loc') and last_member(e['lhs']) == last_member(store['lhs'])):
             continue
-        if x.get('via'):
-            names = {root} | {c[0].split(':')[-1] for c in chain} | {c[2].split(':')[-1] for c in chain}
-            if x['via'] not in names:
-                continue
-        return x
-    return None
+        rt = lvalue_root(e['lhs'])
+        found = True
+        if rt is None:
+            return False
+        name = rt['name']
+
+        def fills(x, name=name):
+            if x['ev'] != 'call' or x.get('callee') != 'sigfillset' or not x.get('args'):
+                return False
+            a = strip(x['args'][0])
+            if not (isinstance(a, dict) and a.get('k') == 'addr'):
+                return False
+            r2 = lvalue_root(a['e'])
+            lm = last_member(a['e'])
+            return r2 is not None and r2['name'] == name and lm is not None and lm[1] == 'sa_mask'
+        if not any(fills(x) for x in g.events()):
+            return False
+        mf = h.must_follow(g, fills)
+        for x in g.events():
+            if x['ev'] == 'call' and x.get('callee') == 'sigaction' and len(x.get('args', [])) >= 2:
+                a = strip(x['args'][1])
+                if isinstance(a, dict) and a.get('k') == 'addr':
+                    r2 = lvalue_root(a['e'])
+                    if r2 is not None and r2['name'] == name and not mf.get((x['_b'], x['_i'])):
+                        ok_all = False
+    return (found and ok_all) if found else None
+
+
+def entry_locksets(prog, graphs):
+    """What an entry point may assume to hold when it is entered, derived from how it is installed:
+       * a process signal handler installed with a full sa_mask runs with all signals blocked;
+       * the atfork parent/child handlers run with what the prepare handler leaves held."""
+    entry = {}
+    masks = {}
+    for (hf, inst, e) in h.signal_installs(prog):
+        ok = signal_mask_full(prog, graphs, e)
+        masks[hf.q] = masks.get(hf.q, True) and ok
+    for q, ok in masks.items():
+        entry[q] = frozenset([SIGBLOCK]) if ok else frozenset()
+    for (prep, parent, child) in h.atfork_triples(prog):
+        if prep is None:
+            continue
+        H = h.exit_lockset(Inliner(prog, expand_methods=True).inline(prep))
+        for x in (parent, child):
+            if x is not None:
+                entry[x.q] = frozenset(entry.get(x.q, frozenset()) | H)
+    return entry, masks
+
+
+def contexts(prog):
+    c = getattr(prog, '_c14_contexts', None)
+    if c is None:
+        c = [Context(prog, r) for r in h.entry_points(prog, roots_of(prog))]
+        # roles (who is the signal handler, the atfork handlers, ...) are looked up in the inlined entry points too
+        h.set_graphs(prog, [cx.g for cx in c])
+        entry, masks = entry_locksets(prog, [cx.g for cx in c])
+        for cx in c:
+            cx.entry = entry.get(cx.root.q, frozenset())
+        prog._c14_contexts = c
+        prog._c14_masks = masks
+    return c
 
 
 def run(ctx):
     ctx.rule('R-C14a', 'lockset must-hold: every access to a shared location (table) is made with its lock in the '
-                       'must-held lockset, in every calling context from every entry point; exemptions name one function and one reason', floor=60)
+                       'must-held lockset, in every calling context from every entry point (public API, handlers, thread bodies, '
+                       'constructors); exemptions name a role, an access kind, a path condition and one reason', floor=65)
     ctx.rule('R-C14a.tbl', 'every field of the cross-thread record types is classified (lock-protected / immutable after '
                            'publication / own synchronisation); an unclassified new field is a report', floor=20)
     ctx.rule('R-C14b', 'foreign-state confinement: through an event\'s owner pointer a poster touches only the owner\'s list lock, '
                        'the pending list (locked) and the read-only kick descriptors', floor=3)
-    ctx.rule('R-C14c', 'file-scope variables written outside lock regions are one-way feature flags stored only by their detection '
-                       'function with constants (method: addresses of method tables); every other global is classified', floor=12)
-    ctx.rule('R-C14d', 'signal context: everything the process signal handler can reach is async-signal-safe (no mutex, no allocation)', floor=5)
+    ctx.rule('R-C14c', 'file-scope variables written outside lock regions are one-way flags: every store writes a constant and the '
+                       'value transitions allowed by the guards form no cycle (method: addresses of method tables, first selection or '
+                       'fallback by the running method); every other global is classified', floor=12)
+    ctx.rule('R-C14d', 'signal context: everything the process signal handler can reach is async-signal-safe (no mutex, no allocation); '
+                       'it is installed with all signals blocked', floor=5)
     ctx.rule('R-C14e', 'lock order: the held->acquired graph over all entry points is acyclic; no user callback under a lock '
                        'except the tabled thread_stop hook', floor=3)
     ctx.section(lockset_rule)
@@ -176,95 +364,107 @@ def run(ctx):
     ctx.section(active_fd)
 
 
+def find_exemption(exs, cx, anchor, key, kind, b, i):
+    """(exemption, None) or (None, why the nearest candidate does not apply)"""
+    miss = None
+    for x in exs:
+        if not _loc_matches(x['loc'], key):
+            continue
+        if x.get('fork_child'):
+            if not cx.child(b, i):
+                continue
+        elif 'root' in x:
+            if cx.root.q not in x['root']:
+                continue
+        elif anchor not in x['within']:
+            continue
+        if kind not in x['kinds']:
+            miss = 'a %s access is not covered by the exemption "%s"' % (kind, x['why'])
+            continue
+        if x.get('unless_after') and cx.may_follow(x['unless_after'][0], x['unless_after'][1], b, i):
+            miss = 'the access may follow the point "%s": exemption "%s" does not apply' % (x['unless_after'][0], x['why'])
+            continue
+        if x.get('after_release'):
+            lk = x['after_release']
+            if not cx.must_follow('release of ' + lk, lambda e, lk=lk, cx=cx: ('unlock', lk) in cx.eff(e), b, i):
+                miss = 'not every path to the access released %s before: exemption "%s" does not apply' % (lk, x['why'])
+                continue
+        return x, None
+    return None, miss
+
+
 def lockset_rule(ctx):
     prog = ctx.prog
-    roots = roots_of(prog)
-    results = {}   # (fn, key) -> list of (ok, event, root, exemption)
+    cxs = contexts(prog)
+    exs = exemptions(prog)
+    results = {}   # (anchor frame, key) -> list of (ok, event, root, exemption, miss)
     order_edges = {}
     user_under_lock = []
-    for r in roots:
-        entry = frozenset()
-        if r.name == 'iv_signal_handler':
-            entry = frozenset([SIGBLOCK])
-        if r.name in ('iv_signal_parent',):
-            entry = frozenset([SIGBLOCK, SIG])
-        g = Inliner(prog, expand_methods=True).inline(r)
-        ls = locksets(g, entry=entry)
-        for b, blk in g.blocks.items():
-            for i, e in enumerate(blk.events):
-                S = ls.get((b, i))
-                if S is None:
-                    continue
-                H = held(S)
-                for (op, lid) in lock_effect(e):
-                    if op == 'lock' and lid != SIGBLOCK:
-                        for h in H:
-                            if h != SIGBLOCK and h != lid:
-                                order_edges.setdefault((h, lid), (e, r))
-                if e['ev'] == 'call' and 'fnexpr' in e:
-                    ck = callback_kind(e)
-                    if ck and ck[0] in ('callback', 'hook', 'param') and (H - {SIGBLOCK}):
-                        user_under_lock.append((e, r, H - {SIGBLOCK}, ck))
-                fnname = (e.get('fn') or r.q).split(':')[-1]
-                for key in shared_accesses(e):
-                    need = SHARED[key]
-                    ok = need in H
-                    ex = None if ok else exempt_for(fnname, key, r.name, e.get('chain') or [])
-                    results.setdefault((fnname, key), []).append((ok, e, r, ex))
-    if len(results) < 40:
-        raise AnalysisBroken('only %d (function, shared location) access groups found' % len(results))
-    for (fnname, key), lst in sorted(results.items(), key=lambda kv: (kv[0][0], str(kv[0][1]))):
-        bad = [(e, r) for (ok, e, r, ex) in lst if not ok and ex is None]
-        exs = [ex for (ok, e, r, ex) in lst if not ok and ex is not None]
-        e0, r0 = bad[0] if bad else (lst[0][1], lst[0][2])
-        inst = '%s:%s.%s' % (fnname, key[0], key[1])
-        for ex in exs[:1]:
+    writers = {}   # key -> set of anchor frames that write it (for owner-only exemptions)
+    for cx in cxs:
+        r = cx.root
+        for b, i, e, H in cx.points():
+            for (op, lid) in cx.eff(e):
+                if op == 'lock' and lid != SIGBLOCK:
+                    for hl in H:
+                        if hl != SIGBLOCK and hl != lid:
+                            order_edges.setdefault((hl, lid), (e, r))
+            if e['ev'] == 'call' and 'fnexpr' in e:
+                ck = callback_kind(e)
+                if ck and ck[0] in ('callback', 'hook', 'param') and (H - {SIGBLOCK}):
+                    user_under_lock.append((e, r, H - {SIGBLOCK}, ck, cx.child(b, i)))
+            keys = shared_accesses(e)
+            if not keys:
+                continue
+            anchor = h.anchor_frame(prog, e, r)
+            kind = access_kind(e)
+            for key in keys:
+                ok = SHARED[key] in H
+                ex, miss = (None, None) if ok else find_exemption(exs, cx, anchor, key, kind, b, i)
+                results.setdefault((anchor, key), []).append((ok, e, r, ex, miss))
+                if kind != 'read':
+                    writers.setdefault(key, {})[anchor] = e
+    for (anchor, key), lst in sorted(results.items(), key=lambda kv: (kv[0][0], str(kv[0][1]))):
+        bad = [(e, r, miss) for (ok, e, r, ex, miss) in lst if not ok and ex is None]
+        used = [ex for (ok, e, r, ex, miss) in lst if not ok and ex is not None]
+        e0, r0, miss0 = bad[0] if bad else (lst[0][1], lst[0][2], None)
+        inst = '%s:%s.%s' % (h.short(anchor), key[0], key[1])
+        for ex in used[:1]:
             ctx.exempt('R-C14a', inst, ex['why'])
+        nsites = len({e.get('loc') for (_, e, _, _, _) in lst})
         ctx.ob('R-C14a', inst, not bad, loc=e0['loc'],
-               detail=('%s accessed without %s when entered from %s: %s' % ('%s.%s' % key, SHARED[key], r0.name, describe(e0))) if bad else
-                      ('%d accesses in %d contexts, %s held%s' % (len(lst), len({r.q for _, _, r, _ in lst}), SHARED[key],
-                                                                  (' (exempt: %s)' % exs[0]['why']) if exs else '')),
-               fn=fnname)
+               detail=('%s accessed without %s when entered from %s: %s%s' % ('%s.%s' % key, SHARED[key], r0.name, describe(e0),
+                                                                            ('; ' + miss0) if miss0 else '')) if bad else
+                      ('%d access sites in %d contexts, %s held%s' % (nsites, len({r.q for _, _, r, _, _ in lst}), SHARED[key],
+                                                                     (' (exempt: %s)' % used[0]['why']) if used else '')),
+               fn=anchor)
+    # an exemption that rests on "only the owner thread writes this" obliges the writers
+    for x in exs:
+        if x.get('owner_only'):
+            key = x['loc']
+            ws = writers.get(key, {})
+            bad = sorted(a for a in ws if a not in x['owner_only'])
+            e0 = ws[bad[0]] if bad else (sorted(ws.items())[0][1] if ws else None)
+            ctx.ob('R-C14a', 'owner-thread-writes:%s.%s' % key, bool(ws) and not bad, loc=e0['loc'] if e0 else None,
+                   detail='%s.%s is read without the lock by its owner thread, so only the owner-thread API may write it; written within: %s'
+                          % (key[0], key[1], sorted(h.short(a) for a in ws)))
     # ---- lock order -------------------------------------------------------------
-    import itertools
-    graph = {}
-    for (a, b) in order_edges:
-        graph.setdefault(a, set()).add(b)
-    def cyclic():
-        color = {}
-        def dfs(u, stack):
-            color[u] = 1
-            for v in graph.get(u, ()):
-                if color.get(v) == 1:
-                    return stack + [u, v]
-                if v not in color:
-                    c = dfs(v, stack + [u])
-                    if c:
-                        return c
-            color[u] = 2
-            return None
-        for u in list(graph):
-            if u not in color:
-                c = dfs(u, [])
-                if c:
-                    return c
-        return None
-    cyc = cyclic()
+    cyc = h.find_cycle(set(order_edges))
     for (a, b), (e, r) in sorted(order_edges.items()):
         ctx.ob('R-C14e', 'order:%s->%s' % (a, b), not (cyc and a in cyc and b in cyc), loc=e['loc'],
                detail='%s acquired while %s is held (entry %s)%s' % (b, a, r.name, ('; part of cycle ' + ' -> '.join(cyc)) if cyc and a in cyc and b in cyc else ''))
     if not order_edges:
         raise AnalysisBroken('no nested lock acquisition found (wait lock -> event list mutex expected)')
-    seen = set()
-    for (e, r, H, ck) in user_under_lock:
+    groups = {}
+    for (e, r, H, ck, child) in user_under_lock:
         lm = last_member(e['fnexpr']) if 'fnexpr' in e else None
         inst = 'user-call-under-lock:%s' % ('%s.%s' % lm if lm else canon(e.get('fnexpr')))
-        if inst in seen:
-            continue
-        seen.add(inst)
-        if (e.get('fn') or '').split(':')[-1] == 'iv_wait_interest_register_spawn':
-            why = ('the spawn helper runs the caller-supplied function in the forked child only (single-threaded copy of the '
-                   'process that then exits); the parent never runs user code under iv_wait_lock')
+        groups.setdefault(inst, []).append((e, r, H, lm, child))
+    for inst, lst in sorted(groups.items()):
+        e, r, H, lm, _ = lst[0]
+        if all(child for (_, _, _, _, child) in lst):
+            why = ('the caller-supplied function runs in the forked child only (single-threaded copy of the '
+                   'process); the parent never runs user code under the lock')
             ctx.exempt('R-C14e', inst, why)
             ctx.ob('R-C14e', inst, True, loc=e['loc'], detail='exempt: ' + why)
         elif lm in (('work_pool_priv', 'thread_stop'),):
@@ -273,6 +473,7 @@ def lockset_rule(ctx):
             ctx.exempt('R-C14e', inst, why)
             ctx.ob('R-C14e', inst, True, loc=e['loc'], detail='exempt: ' + why)
         else:
+            e, r, H = [(e, r, H) for (e, r, H, _, child) in lst if not child][0]
             ctx.ob('R-C14e', inst, False, loc=e['loc'], detail='user code entered with %s held (entry %s)' % (sorted(H), r.name))
 
 
@@ -286,20 +487,68 @@ def classification(ctx):
             ok = (rec, f['name']) in SHARED or f['name'] in cls
             ctx.ob('R-C14a.tbl', '%s.%s' % (rec, f['name']), ok, loc=r['loc'],
                    detail=('protected by %s' % SHARED[(rec, f['name'])]) if (rec, f['name']) in SHARED else cls.get(f['name'], 'UNCLASSIFIED field of a cross-thread record'))
-    # immutable-after-publication fields must indeed be written only in the creating function
-    for rec, cls in sorted(CLASSIFIED_UNSHARED.items()):
-        for fld, why in sorted(cls.items()):
-            if 'written once' not in why:
+    # immutable-after-publication fields: every store, in every calling context, is made before the object can be
+    # seen by another thread -- the pool before iv_work_pool_create publishes it (this->priv), the thread record
+    # before the thread that receives it is created
+    create = {f.q for f in h.api(prog, 'iv_work_pool_create')}
+    once = {}
+    for rec, cls in CLASSIFIED_UNSHARED.items():
+        for fld, why in cls.items():
+            if 'written once' in why:
+                once[(rec, fld)] = []
+
+    def creates_thread(e):
+        return e['ev'] in ('call', 'enter') and e.get('callee') in h.THREAD_CREATE
+
+    def allocates(e):
+        if e['ev'] != 'store' or 'rhs' not in e:
+            return False
+        v = strip(e['rhs'])
+        return isinstance(v, dict) and v.get('k') == 'call' and v.get('callee') in ('malloc', 'calloc')
+    for cx in contexts(prog):
+        for b, i, e, H in cx.points():
+            if e['ev'] != 'store':
                 continue
-            ws = {f.name for (f, e) in prog.writers_of(rec, fld)}
-            ok = ws <= {'iv_work_pool_create', 'iv_work_start_thread'}
-            ctx.ob('R-C14a.tbl', '%s.%s:written-once' % (rec, fld), ok, loc=prog.records[rec]['loc'],
-                   detail='writers: %s' % sorted(ws))
+            for st in lvalue_steps(e['lhs']):
+                if st not in once:
+                    continue
+                if st[0] == 'work_pool_priv':
+                    inside = h.anchor_frame(prog, e, cx.root) in create
+                    late = cx.may_follow('pool published', _publishes_pool, b, i)
+                    once[st].append((inside and not late, e, cx.root,
+                                     'outside iv_work_pool_create' if not inside else 'after the pool was published' if late else ''))
+                else:
+                    obj = strip(e['lhs'])
+                    while isinstance(obj, dict) and obj.get('k') == 'member' and not obj['arrow']:
+                        obj = strip(obj['base'])
+                    base = strip(obj['base']) if isinstance(obj, dict) and obj.get('k') == 'member' else None
+                    bname = base['name'] if isinstance(base, dict) and base.get('k') == 'var' else None
+                    k = ('fresh', bname)
+                    if k not in cx._memo:
+                        # status of the record `bname` points to -- 0: not allocated on the path, 1: allocated here and not
+                        # yet handed to a new thread, 2: a thread was created since
+                        def tr(x, s_, bname=bname):
+                            if allocates(x) and strip(x['lhs']).get('k') == 'var' and strip(x['lhs'])['name'] == bname:
+                                return frozenset([1])
+                            if creates_thread(x):
+                                return frozenset(2 if v == 1 else v for v in s_)
+                            return s_
+                        _, cx._memo[k] = forward(cx.g, frozenset([0]), tr, lambda a, b2: a | b2)
+                    st_ = cx._memo[k].get((b, i)) or frozenset([0])
+                    why = '' if st_ == frozenset([1]) else ('after the thread that receives the record was created' if 2 in st_ else
+                                                            'not on a record allocated in this context (the running thread or another one can see it)')
+                    once[st].append((not why, e, cx.root, why))
+    for (rec, fld), lst in sorted(once.items()):
+        bad = [(e, r, why) for (ok, e, r, why) in lst if not ok]
+        ctx.ob('R-C14a.tbl', '%s.%s:written-once' % (rec, fld), bool(lst) and not bad,
+               loc=(bad[0][0]['loc'] if bad else lst[0][1]['loc'] if lst else prog.records[rec]['loc']),
+               detail=('store %s (entry %s): %s' % (describe(bad[0][0]), bad[0][1].name, bad[0][2])) if bad else
+                      ('%d store sites, all before publication' % len({e.get('loc') for (_, e, _, _) in lst})) if lst else 'never written')
 
 
 def confinement(ctx):
     prog = ctx.prog
-    f = prog.fn('iv_event_post')
+    f = h.api(prog, 'iv_event_post')[0]
     g = Inliner(prog, expand_methods=True).inline(f)
     # variables holding the owner pointer
     owners = set()
@@ -308,7 +557,7 @@ def confinement(ctx):
             rhs = e.get('rhs') if e['ev'] == 'store' else e.get('init')
             if rhs is not None and last_member(rhs) == ('iv_event', 'owner'):
                 owners.add(canon(e['lhs']) if e['ev'] == 'store' else e['name'])
-    if not owners:
+    if not owners and not any(e['ev'] == 'load' and last_member(e['e']) == ('iv_event', 'owner') for e in g.events()):
         raise AnalysisBroken('iv_event_post: owner pointer not found')
     # propagate copies (parameter temporaries)
     changed = True
@@ -320,7 +569,7 @@ def confinement(ctx):
                 if isinstance(r, dict) and r.get('k') == 'var' and r['name'] in owners and strip(e['lhs'])['name'] not in owners:
                     owners.add(strip(e['lhs'])['name'])
                     changed = True
-    ls = locksets(g)
+    ls = h.locksets_in(g)
     fields = {}
     for b, blk in g.blocks.items():
         for i, e in enumerate(blk.events):
@@ -366,56 +615,106 @@ def confinement(ctx):
         ctx.ob('R-C14b', 'iv_event_post:owner->%s' % fld, ok, loc=e0['loc'],
                detail=FOREIGN_ALLOWED.get(fld, 'thread-confined field of another thread\'s loop state accessed by a poster: %s' % describe(e0)),
                fn=f.q)
-    # who reads iv_event.owner
-    readers = set()
+    # who follows an event's owner pointer: only code that runs as part of iv_event_post (any thread) or
+    # iv_event_unregister (owner thread only, documented), whatever helpers they are cut into
+    allowed = {x.q for x in h.api(prog, 'iv_event_post', 'iv_event_unregister')}
+    readers = {}
     for fn in prog.all_funcs():
         for e in fn.events():
             if e['ev'] == 'load' and last_member(e['e']) == ('iv_event', 'owner'):
-                readers.add(fn.name)
-    ctx.ob('R-C14b', 'iv_event.owner:readers', readers <= {'iv_event_post', 'iv_event_unregister'}, loc=f.loc,
-           detail='functions that follow an event\'s owner pointer: %s (post: any thread; unregister: owner thread only, documented)' % sorted(readers))
+                readers.setdefault(fn.q, fn)
+    stray = sorted(q for q, fn in readers.items() if not h.only_within(prog, fn, allowed))
+    ctx.ob('R-C14b', 'iv_event.owner:readers', bool(readers) and not stray, loc=f.loc,
+           detail='functions that follow an event\'s owner pointer: %s; reachable other than through iv_event_post / iv_event_unregister: %s '
+                  '(post: any thread; unregister: owner thread only, documented)' % (sorted(h.short(q) for q in readers), stray or 'none'))
+
+
+def _table_value(v):
+    """the stored value is (the address of) a poll-method table: judged by type, not by how it is spelled"""
+    v = strip(v)
+    if not isinstance(v, dict) or v.get('k') in ('null', 'int'):
+        return False
+    if v.get('k') == 'addr':
+        return strip(v['e']).get('record') == 'iv_fd_poll_method'
+    if v.get('k') == 'cond':
+        return _table_value(v.get('a')) and _table_value(v.get('b'))
+    return (v.get('record') == 'iv_fd_poll_method' and v.get('k') == 'var') or \
+        ('iv_fd_poll_method' in (v.get('type') or '') and '*' in (v.get('type') or ''))
 
 
 def one_way(ctx):
     prog = ctx.prog
-    roots = roots_of(prog)
-    # lock context of every global store, over all entry points
+    slot_fns = set()
+    for t, slots in prog.method_tables().items():
+        for s_, v in slots.items():
+            if v and v[0] != 'str':
+                fn = prog.resolve(v[0], v[1])
+                if fn is not None:
+                    slot_fns.add(fn.q)
+    # lock context and guards of every global store, over all entry points
     ctxs = {}
-    for r in roots:
-        g = Inliner(prog, expand_methods=True).inline(r)
-        ls = locksets(g, entry=frozenset([SIGBLOCK, SIG]) if r.name == 'iv_signal_parent' else frozenset())
-        for b, blk in g.blocks.items():
-            for i, e in enumerate(blk.events):
-                if e['ev'] != 'store' or ls.get((b, i)) is None:
-                    continue
-                rt = lvalue_root(e['lhs'])
-                if rt is None or rt.get('vk') not in ('global', 'staticlocal'):
-                    continue
-                if r.constructor:
-                    continue      # runs before main(), single-threaded
-                ctxs.setdefault(rt['name'], []).append((e, held(ls[(b, i)]) - {SIGBLOCK}, r))
+    for cx in contexts(prog):
+        r = cx.root
+        if r.constructor:
+            continue      # runs before main(), single-threaded
+        guards = None
+        for b, i, e, H in cx.points():
+            if e['ev'] != 'store':
+                continue
+            rt = lvalue_root(e['lhs'])
+            if rt is None or rt.get('vk') not in ('global', 'staticlocal'):
+                continue
+            G = frozenset()
+            if rt['name'] in ONE_WAY:
+                if guards is None:
+                    guards = h.flag_guards(cx.g, set(ONE_WAY))
+                G = frozenset(a for a in (guards.get((b, i)) or ()) if a[1] == rt['name'])
+            ctxs.setdefault(rt['name'], []).append((e, H - {SIGBLOCK}, r, G, h.frames(e, r), h.anchor_frame(prog, e, r)))
     seen = set()
     for name, lst in sorted(ctxs.items()):
         if ('global', name) in SHARED:
             continue    # R-C14a
         if name in ONE_WAY:
-            fns, kind, why = ONE_WAY[name]
-            for (e, H, r) in lst:
-                fnname = (e.get('fn') or r.q).split(':')[-1]
-                inst = '%s:%s' % (name, fnname)
-                if inst in seen:
-                    continue
-                seen.add(inst)
-                v = strip(e.get('rhs')) if 'rhs' in e else None
+            kind, why = ONE_WAY[name]
+            by_site = {}
+            for t in lst:
+                by_site.setdefault((t[5], t[0].get('loc')), []).append(t)
+            edges = {}
+            domain = set()
+            inits = [g.get('init') for k, g in prog.globals.items() if g.get('name') == name and not g.get('extern_decl')]
+            for iv in inits or [None]:
+                v = h._intval(iv) if iv is not None else 0
+                domain.add(0 if v is None else v)
+            for (anchor, loc), group in sorted(by_site.items(), key=str):
+                e = group[0][0]
+                inst = '%s:%s' % (name, h.short(anchor))
                 if kind == 'int':
-                    vok = e['op'] == '=' and isinstance(v, dict) and v.get('k') == 'int'
+                    vals = [h._intval(t[0].get('rhs')) if t[0].get('op') == '=' and 'rhs' in t[0] and h._gvar(t[0]['lhs']) else None for t in group]
+                    vok = all(v is not None for v in vals)
+                    det = 'stores the constant %s' % vals[0] if vok else 'stored value is not a compile-time constant: %s' % describe(e)
+                    for t, v in zip(group, vals):
+                        if v is not None:
+                            domain.add(v)
+                            edges.setdefault(v, []).append(t[3])
                 else:
-                    vok = e['op'] == '=' and isinstance(v, dict) and (
-                        (v.get('k') == 'addr' and strip(v['e']).get('record') == 'iv_fd_poll_method') or
-                        (v.get('k') == 'var' and v.get('record') == 'iv_fd_poll_method'))
-                ctx.ob('R-C14c', inst, vok and fnname in fns, loc=e['loc'],
-                       detail='%s (%s); stored value %s' % (why, 'writer allowed' if fnname in fns else 'writer not in the flag\'s detection functions %s' % fns,
-                                                            canon(e.get('rhs')) if 'rhs' in e else e['op']), fn=fnname)
+                    first = all(('==', name, 0) in t[3] for t in group)
+                    fallback = all(any(q in slot_fns for q in t[4]) for t in group)
+                    vok = all(t[0].get('op') == '=' and 'rhs' in t[0] and _table_value(t[0]['rhs']) for t in group) and (first or fallback)
+                    det = ('first selection (method == NULL holds)' if first else 'fallback made by the running poll method itself' if fallback
+                           else 'neither guarded by method == NULL nor made by a poll-method slot function') + '; stored value %s' % (
+                               canon(e.get('rhs')) if 'rhs' in e else e['op'])
+                ctx.ob('R-C14c', inst, vok, loc=e['loc'], detail='%s; %s' % (why, det), fn=anchor)
+            if kind == 'int':
+                # value transitions: a store of c guarded by atoms G moves every value of the domain that satisfies G to c
+                trans = set()
+                for c, glist in edges.items():
+                    for G in glist:
+                        for d in domain:
+                            if d != c and h.satisfies(d, G):
+                                trans.add((d, c))
+                cyc = h.find_cycle(trans)
+                ctx.ob('R-C14c', '%s:one-way' % name, not cyc, loc=lst[0][0]['loc'],
+                       detail=('transitions %s' % sorted(trans)) + ((': value can come back: ' + ' -> '.join(str(x) for x in cyc)) if cyc else ': no value is ever restored'))
         elif name in GLOBAL_OTHER:
             inst = '%s:classified' % name
             if inst not in seen:
@@ -423,7 +722,7 @@ def one_way(ctx):
                 ctx.exempt('R-C14c', inst, GLOBAL_OTHER[name])
                 ctx.ob('R-C14c', inst, True, loc=lst[0][0]['loc'], detail=GLOBAL_OTHER[name])
         else:
-            unlocked = [(e, r) for (e, H, r) in lst if not H]
+            unlocked = [(t[0], t[2]) for t in lst if not t[1]]
             inst = '%s:unclassified' % name
             if inst not in seen:
                 seen.add(inst)
@@ -438,77 +737,115 @@ def one_way(ctx):
 
 def signal_context(ctx):
     prog = ctx.prog
-    h = prog.fn('iv_signal_handler')
-    # installed as the process signal handler?
-    inst = [e for f in prog.all_funcs() for e in f.events()
-            if e['ev'] == 'store' and canon(e.get('rhs', {})) == 'iv_signal_handler']
-    if not inst:
-        raise AnalysisBroken('iv_signal_handler is not installed anywhere')
-    seen = {}
-    work = [(h, [h.name])]
+    installs = h.signal_installs(prog)
+    if not installs:
+        raise AnalysisBroken('no function is installed as a process signal handler (sa_handler)')
+    contexts(prog)
+    masks = prog._c14_masks
+    handlers = {}
+    for (hf, inst, e) in installs:
+        handlers.setdefault(hf.q, (hf, e))
     ext = {}
-    while work:
-        f, path = work.pop()
-        if f.q in seen:
-            continue
-        seen[f.q] = path
-        u = prog.unit_of(f)
-        for e in f.events():
-            if e['ev'] != 'call':
+    seen = {}
+    for q, (hf, ie) in sorted(handlers.items()):
+        ctx.ob('R-C14d', 'signal-handler:all-signals-blocked', masks.get(q, False), loc=ie['loc'],
+               detail='the handler takes a spinlock and walks trees that only blocking signals protects: it must be installed with a '
+                      'full sa_mask (sigfillset on the same sigaction object on every path to sigaction())')
+        work = [(hf, [hf.name])]
+        while work:
+            f, path = work.pop()
+            if f.q in seen:
                 continue
-            if f.blocks[e['_b']].noreturn:
-                continue          # argument evaluation of / the fatal call itself: the process aborts
-            if 'callee' in e:
-                g = prog.resolve(u, e['callee']) if u else prog.funcs.get(e['callee'])
-                if g is not None and g.blocks:
-                    if g.noreturn or e.get('noreturn'):
-                        continue      # fatal handler: aborts the process
-                    work.append((g, path + [g.name]))
+            seen[f.q] = path
+            u = prog.unit_of(f)
+            for e in f.events():
+                if e['ev'] != 'call':
+                    continue
+                if f.blocks[e['_b']].noreturn:
+                    continue          # argument evaluation of / the fatal call itself: the process aborts
+                if 'callee' in e:
+                    g = prog.resolve(u, e['callee']) if u else prog.funcs.get(e['callee'])
+                    if g is not None and g.blocks:
+                        if g.noreturn or e.get('noreturn'):
+                            continue      # fatal handler: aborts the process
+                        work.append((g, path + [g.name]))
+                    else:
+                        if e.get('noreturn'):
+                            continue
+                        ext.setdefault(e['callee'], (e, path))
                 else:
-                    if e.get('noreturn'):
-                        continue
-                    ext.setdefault(e['callee'], (e, path))
-            else:
-                ext.setdefault('<indirect %s>' % canon(e['fnexpr']), (e, path))
+                    ext.setdefault('<indirect %s>' % canon(e['fnexpr']), (e, path))
     for name, (e, path) in sorted(ext.items()):
         ok = name in SIGNAL_SAFE_EXTERNAL
         ctx.ob('R-C14d', 'signal-handler-reaches:%s' % name, ok, loc=e['loc'],
                detail='via %s' % ' > '.join(path))
     bad = [q for q in seen if q.split(':')[-1].startswith('___mutex_') or q.split(':')[-1] in ('iv_event_post', 'malloc', 'free')]
-    ctx.ob('R-C14d', 'signal-handler:no-mutex', not bad, loc=h.loc,
+    h0 = sorted(handlers.items())[0][1][0]
+    ctx.ob('R-C14d', 'signal-handler:no-mutex', not bad, loc=h0.loc,
            detail='repo functions reachable: %d; mutex/allocating ones: %s' % (len(seen), bad or 'none'))
+
+
+def _is_active_fd(v):
+    return isinstance(v, dict) and v.get('k') == 'var' and v.get('name') == 'iv_active_fd' and v.get('vk') in ('global', 'staticlocal')
 
 
 def active_fd(ctx):
     """iv_active_fd is written under the mutex and may be read without it only
-    while the reader holds a reference: never after its own reference was dropped."""
+    while the reader holds a reference: never after its own reference was dropped.
+    Evaluated per entry point that touches the descriptor (the event_rx_on/off/send slot functions), helpers inlined."""
     prog = ctx.prog
-    n = 0
-    for f in sorted(prog.all_funcs(), key=lambda f: f.q):
-        acc = [e for e in f.events() if
-               (e['ev'] == 'load' and strip(e['e']).get('k') == 'var' and strip(e['e'])['name'] == 'iv_active_fd' and strip(e['e']).get('vk') in ('global', 'staticlocal'))
-               or (e['ev'] == 'store' and lvalue_root(e['lhs']) is not None and lvalue_root(e['lhs'])['name'] == 'iv_active_fd')]
+
+    def touches(e):
+        if e['ev'] == 'load':
+            x = strip(e['e'])
+            return _is_active_fd(x) and not e['e'].get('_was') and not x.get('_was')
+        if e['ev'] == 'store':
+            rt = lvalue_root(e['lhs'])
+            return rt is not None and _is_active_fd(rt)
+        return False
+
+    def drops(e):
+        if e['ev'] != 'store':
+            return False
+        rt = lvalue_root(e['lhs'])
+        return rt is not None and rt.get('name') == 'iv_active_fd_refcount' and rt.get('vk') in ('global', 'staticlocal') \
+            and e['op'] not in ('++', '+=')
+    # candidate functions: reach an access through direct calls
+    direct = {f.q for f in prog.all_funcs() if any(touches(e) for e in f.events())}
+    if not direct:
+        raise AnalysisBroken('accesses to iv_active_fd: none found')
+    reach = {}
+    for q in direct:
+        for c in _callers_closure(prog, prog.funcs[q]):
+            reach[c.q] = c
+    eps = [r for r in h.entry_points(prog, roots_of(prog)) if r.q in reach]
+    sites = {}
+    for r in eps:
+        g = Inliner(prog).inline(r)
+        acc = [e for e in g.events() if touches(e)]
         if not acc:
             continue
-        ls = locksets(f)
-        drops = [e for e in f.events() if e['ev'] == 'store' and lvalue_root(e['lhs']) is not None and lvalue_root(e['lhs'])['name'] == 'iv_active_fd_refcount'
-                 and e['op'] in ('--', '-=')]
-        after = {}
-        if drops:
-            def tr(e, s_):
-                return True if e in drops else s_
-            _, after = forward(f, False, tr, lambda a, b: a or b)
+        ls = h.locksets_in(g)
+        after = h.may_follow(g, drops)
         for e in acc:
-            n += 1
             H = held(ls.get((e['_b'], e['_i'])))
             if e['ev'] == 'store':
                 ok = AFD in H
-                det = 'written with the active-fd mutex held'
+                det = 'written with the active-fd mutex held' if ok else 'written without the active-fd mutex'
             else:
                 dropped = bool(after.get((e['_b'], e['_i'])))
                 ok = (AFD in H) or not dropped
                 det = ('read under the mutex' if AFD in H else 'read while this thread still holds its reference') if ok else \
                     'read without the mutex after this thread dropped its reference: another thread may be re-creating the descriptor'
-            ctx.ob('R-C14a', '%s:iv_active_fd:%s' % (f.name, 'write' if e['ev'] == 'store' else 'read'), ok, loc=e['loc'], detail=det, fn=f.q)
-    if n < 4:
-        raise AnalysisBroken('accesses to iv_active_fd: %d found' % n)
+            sites.setdefault((r.q, 'write' if e['ev'] == 'store' else 'read', e.get('loc')), []).append((ok, det, e))
+    for (rq, kind, loc), lst in sorted(sites.items(), key=str):
+        bad = [x for x in lst if not x[0]]
+        ok, det, e = bad[0] if bad else lst[0]
+        ctx.ob('R-C14a', '%s:iv_active_fd:%s' % (h.short(rq), kind), ok, loc=e['loc'], detail=det, fn=rq)
+    if len({k[2] for k in sites}) < 4:
+        raise AnalysisBroken('accesses to iv_active_fd: %d found' % len({k[2] for k in sites}))
+
+
+def _callers_closure(prog, f):
+    from ..roles import callers_closure
+    return callers_closure(prog, f)
